@@ -1,4 +1,3 @@
-(* WIP *)
 (* Abstract key-value store used to model the four storage back ends (badger, pebble, bbolt: one
    flat ordered key space with prefix iteration; redis: one hash per record type).  A store is an
    association list; [kv_set] replaces in place or appends, so the model's iteration order is
